@@ -250,6 +250,12 @@ def gen_world(rng, profile=None):
                 ],
             }
         )
+        # the same plug type of a station listed on two rows of the stations file (two banks of plugs): the counts add up
+        for p in stations[-1]["plugs"]:
+            if p["count"] >= 2 and rng.random() < 0.4:
+                a = rng.randint(1, p["count"] - 1)
+                p["rows"] = [a, p["count"] - a]
+                p["rows_apart"] = rng.random() < 0.5
     bases = []
     sids = [s["id"] for s in stations]
     for i in range(nb):
@@ -346,6 +352,7 @@ def gen_world(rng, profile=None):
         "prices": None,
         "rate": rng.choice([[2.2, 1.6, 5], [1, 0, 1], [0.5, 3.0, 0]]) if rng.random() < prof["p_rate"] else None,
         "nsteps": nsteps,
+        "pc_shape": rng.choice(prof.get("pc_shapes", ["shipped", "shipped", "shipped", "constant", "half_taper"])),
         "time_format": rng.choice(prof.get("time_formats", ["epoch", "epoch", "epoch", "iso", "iso", "iso_utc"])),
         "extent_m": extent_m,
     }
@@ -408,12 +415,23 @@ def gen_prices(rng, spec, prof):
 _PC_CACHE = {}
 
 
-def _powercurve_yaml(pc_step):
+def _powercurve_yaml(pc_step, shape="shipped"):
+    """the shipped normalised curve (tapers to ~0 at 100 %), or a legal curve of another shape: constant power up to full, or a
+    taper that stops at half power"""
     if "d" not in _PC_CACHE:
         with open(os.path.join(REPO, "nrel/hive/resources/powercurve/normalized.yaml")) as f:
             _PC_CACHE["d"] = yaml.safe_load(f)
     d = dict(_PC_CACHE["d"])
     d["step_size_seconds"] = pc_step
+    if shape != "shipped":
+        pm = [dict(x) for x in d["power_curve"]]
+        top = max(float(x["power_kw"]) for x in pm)
+        for x in pm:
+            if shape == "constant":
+                x["power_kw"] = top
+            elif shape == "half_taper":
+                x["power_kw"] = max(float(x["power_kw"]), 0.5 * top)
+        d["power_curve"] = pm
     return d
 
 
@@ -454,16 +472,21 @@ def materialise(spec, root=None):
     else:
         rows = [[r["id"], *cell_latlon(r["o"]), *cell_latlon(r["d"]), ft(r["t"]), r["pax"]] for r in spec["requests"]]
     w(d / "requests/r.csv", hdr, rows)
-    w(d / "stations/s.csv", ["station_id", "lat", "lon", "charger_count", "charger_id", "on_shift_access"],
-      [[s["id"], *cell_latlon(s["cell"]), p["count"], p["charger"], "true" if p["on_shift"] else "false"]
-       for s in spec["stations"] for p in s["plugs"]])
+    srows, late = [], []
+    for s in spec["stations"]:
+        for p in s["plugs"]:
+            counts = p.get("rows") or [p["count"]]
+            for j, c in enumerate(counts):
+                row = [s["id"], *cell_latlon(s["cell"]), c, p["charger"], "true" if p["on_shift"] else "false"]
+                (late if j > 0 and p.get("rows_apart") else srows).append(row)
+    w(d / "stations/s.csv", ["station_id", "lat", "lon", "charger_count", "charger_id", "on_shift_access"], srows + late)
     w(d / "bases/b.csv", ["base_id", "lat", "lon", "station_id", "stall_count"],
       [[b["id"], *cell_latlon(b["cell"]), b["station"] or "", b["stalls"]] for b in spec["bases"]])
     w(d / "chargers/c.csv", ["charger_id", "energy_type", "rate", "units"], spec.get("chargers") or CHARGERS)
     with open(d / "mechatronics/m.yaml", "w") as f:
         yaml.safe_dump(spec["mech"], f)
     with open(d / "powercurve/pc.yaml", "w") as f:
-        yaml.safe_dump(_powercurve_yaml(spec.get("pc_step", 60)), f)
+        yaml.safe_dump(_powercurve_yaml(spec.get("pc_step", 60), spec.get("pc_shape") or "shipped"), f)
     inp = {"vehicles_file": "v.csv", "requests_file": "r.csv", "stations_file": "s.csv", "bases_file": "b.csv",
            "chargers_file": "c.csv", "mechatronics_file": "m.yaml"}
     if spec.get("rate"):
